@@ -638,6 +638,9 @@ func TestVerifC11(t *testing.T) {
 	c11Pairs(c, mc.Pick(c, 5, 6), mc.Pick(c, 10, 12))
 	c11Untied(c, mc.Pick(c, 7, 7))
 	c11Approx(c)
+	if !c.Sweep() {
+		c11BigTies(c, mc.Pick(c, 16, 20))
+	}
 	mc.FirstCalls(c, c11Calls, "TestVerifC11Fresh", "VERIF_C11_CALLS")
 	if code := c.Finish(); code != 0 {
 		os.Exit(code)
